@@ -1,12 +1,87 @@
 package main
 
 import (
+	"fmt"
+	"strings"
+
 	"github.com/influxdata/influxql"
 )
+
+// c03Spine walks the left spine of a tree from the root down and reports it run-length encoded: for every maximal run
+// of BinaryExpr nodes with the same operator and the same KIND of right operand one record; plus the number of operator
+// nodes on the spine and the kind of the leftmost leaf.  (A chain of thousands of operands cannot travel as a nested tree.)
+func c03Spine(e influxql.Expr) M {
+	kind := func(x influxql.Expr) string { return strings.TrimPrefix(fmt.Sprintf("%T", x), "*influxql.") }
+	runs := []interface{}{}
+	ops := 0
+	var cur M
+	for {
+		b, ok := e.(*influxql.BinaryExpr)
+		if !ok {
+			break
+		}
+		ops++
+		k, op := kind(b.RHS), b.Op.String()
+		if cur != nil && cur["k"] == k && cur["op"] == op {
+			cur["n"] = cur["n"].(int) + 1
+		} else {
+			cur = M{"k": k, "op": op, "n": 1}
+			runs = append(runs, cur)
+		}
+		e = b.LHS
+	}
+	return M{"runs": runs, "ops": ops, "left": kind(e)}
+}
+
+func c03Uniform(c M) M {
+	n, op, operand, tail := num(c["n"]), str(c["op"]), str(c["operand"]), str(c["tail"])
+	var b strings.Builder
+	for i := 0; i < n; i++ {
+		if i > 0 {
+			b.WriteString(" " + op + " ")
+		}
+		b.WriteString(operand)
+	}
+	if tail != "" {
+		b.WriteString(" " + op + " " + tail)
+	}
+	text := b.String()
+	o := M{"len": len(text)}
+	var e influxql.Expr
+	var err error
+	if p := guard(func() { e, err = influxql.NewParser(strings.NewReader(text)).ParseExpr() }); p != "" {
+		o["panic"] = p
+		return o
+	}
+	if err != nil {
+		o["err"] = errStr(err)
+		return o
+	}
+	o["spine"] = c03Spine(e)
+	var s string
+	if p := guard(func() { s = e.String() }); p != "" {
+		o["panic"] = p
+		return o
+	}
+	var e2 influxql.Expr
+	if p := guard(func() { e2, err = influxql.ParseExpr(s) }); p != "" {
+		o["panic"] = p
+		return o
+	}
+	if err != nil {
+		o["rerr"] = errStr(err)
+		return o
+	}
+	o["respine"] = c03Spine(e2)
+	return o
+}
 
 // c03: parse an operator chain with ParseExpr, print it, parse the print again.
 func init() {
 	register("c03", &Suite{Run: func(c M) M {
+		if u, _ := c["uniform"].(bool); u {
+			return c03Uniform(c)
+		}
 		text := caseText(c)
 		o := M{"text": text}
 		delete(c, "toks")
